@@ -24,6 +24,23 @@ pub struct Case13 {
     pub lr: f64,
     pub params: Vec<Param>,
     pub rounds: Vec<Vec<Option<Vec<f64>>>>,
+    /// update through `Model::update` (a user-defined layer holds the parameters, one long-lived model) instead
+    /// of calling the optimizer directly; the gradients are deposited through gradient_mut either way
+    #[serde(default)]
+    pub via_model: bool,
+}
+
+/// a layer whose only job is to own parameters
+struct ParamLayer {
+    params: Vec<Array>,
+}
+impl corgi::layer::Layer for ParamLayer {
+    fn forward(&self, input: Array) -> Array {
+        input
+    }
+    fn parameters(&mut self) -> Vec<&mut Array> {
+        self.params.iter_mut().collect()
+    }
 }
 
 fn bits(v: &[Float]) -> Vec<u64> {
@@ -35,6 +52,9 @@ impl Case13 {
         let e = |k: &str, d: String| Err((k.to_string(), d));
         let gd = GradientDescent::new(fl(self.lr));
         let lr = fl(self.lr);
+        if self.via_model {
+            return self.check_via_model();
+        }
         let mut ps: Vec<Array> = self
             .params
             .iter()
@@ -116,6 +136,69 @@ impl Case13 {
     }
 }
 
+impl Case13 {
+    /// the same oracle, with the parameters owned by a layer of one long-lived Model and updated by Model::update
+    fn check_via_model(&self) -> Result<(), (String, String)> {
+        let e = |k: &str, d: String| Err((k.to_string(), d));
+        let gd = GradientDescent::new(fl(self.lr));
+        let lr = fl(self.lr);
+        let cost = corgi::cost::mse();
+        let mut layer = ParamLayer { params: self.params.iter().map(|p| { let a = arr(&p.dims, &p.vals); if p.tracked { a.tracked() } else { a } }).collect() };
+        let mut expected: Vec<(Vec<usize>, Vec<Float>, bool)> = layer.params.iter().map(|p| (p.dimensions().to_vec(), p.values().to_vec(), probe_tracked(p))).collect();
+        let rounds = self.rounds.clone();
+        let mut observed: Vec<Vec<(Vec<usize>, Vec<Float>, bool, bool)>> = vec![];
+        // a Model borrows its layers exclusively, so the gradients are deposited between the lifetimes of short-lived
+        // models: one Model::update per round
+        for (r, round) in rounds.iter().enumerate() {
+            for (p, g) in layer.params.iter().zip(round) {
+                if let Some(g) = g {
+                    *p.gradient_mut() = Some(arr(p.dimensions(), g));
+                }
+            }
+            let olds: Vec<Array> = layer.params.iter().cloned().collect();
+            {
+                let mut model = corgi::model::Model::new(vec![&mut layer as &mut dyn corgi::layer::Layer], &gd, &cost);
+                if let Err(p) = guarded(|| model.update()) {
+                    return e("unexpected-panic", format!("round {}: Model::update panicked: {}", r, p));
+                }
+            }
+            observed.push(layer.params.iter().map(|p| (p.dimensions().to_vec(), p.values().to_vec(), probe_tracked(p), p.gradient().is_some())).collect());
+            for (i, g) in round.iter().enumerate() {
+                let (bd, bv, bt) = &expected[i];
+                let (d, v, t, has_g) = &observed[r][i];
+                let what = format!("round {} parameter {} of {} updated through Model::update (dims {:?}, gradient pattern {:?})", r, i, round.len(), bd, round.iter().map(|x| x.is_some() as u8).collect::<Vec<_>>());
+                if olds[i].dimensions() != &bd[..] || bits(olds[i].values()) != bits(bv) {
+                    return e("old-handle-changed", format!("{}: an older clone changed", what));
+                }
+                match g {
+                    Some(g) => {
+                        let want: Vec<Float> = bv.iter().zip(g).map(|(x, g)| { let mut x = *x; x -= lr * fl(*g); x }).collect();
+                        if d != bd {
+                            return e("dimensions", format!("{}: dimensions became {:?}", what, d));
+                        }
+                        if bits(v) != bits(&want) {
+                            return e("step-value", format!("{}: values {:?}, expected old - lr*g = {:?}", what, v, want));
+                        }
+                        if *has_g {
+                            return e("gradient-not-cleared", format!("{}: still holds a gradient after the update", what));
+                        }
+                        if !*t {
+                            return e("not-tracked", format!("{}: the updated parameter is not tracked", what));
+                        }
+                    }
+                    None => {
+                        if d != bd || bits(v) != bits(bv) || t != bt || *has_g {
+                            return e("frozen-changed", format!("{}: a parameter without a gradient changed (values {:?}, tracked {}, gradient {})", what, v, t, has_g));
+                        }
+                    }
+                }
+            }
+            expected = observed[r].iter().map(|(d, v, t, _)| (d.clone(), v.clone(), *t)).collect();
+        }
+        Ok(())
+    }
+}
+
 impl CaseKind for Case13 {
     const KIND: &'static str = "c13";
     fn size(&self) -> usize {
@@ -135,7 +218,7 @@ impl CaseKind for Case13 {
             }
             k.u(99);
         }
-        k.u((self.lr * 64.0) as i64 as u64);
+        k.u((self.lr * 64.0) as i64 as u64).b(self.via_model);
         let lens: Vec<usize> = self.params.iter().map(|p| p.vals.len()).collect();
         let mut nontrivial = false;
         for r in &self.rounds {
@@ -147,7 +230,7 @@ impl CaseKind for Case13 {
                 }
             }
         }
-        let classes = vec![format!("params:{}", self.params.len().min(8)), format!("rounds:{}", self.rounds.len()), format!("frozen-before-updated:{}", nontrivial), format!("lr:{}", if self.lr == 0.0 { "zero" } else if self.lr < 0.0 { "negative" } else { "positive" })];
+        let classes = vec![format!("route:{}", if self.via_model { "Model::update" } else { "GradientDescent::update" }), format!("params:{}", self.params.len().min(8)), format!("rounds:{}", self.rounds.len()), format!("frozen-before-updated:{}", nontrivial), format!("lr:{}", if self.lr == 0.0 { "zero" } else if self.lr < 0.0 { "negative" } else { "positive" })];
         match self.check() {
             Ok(()) => Outcome::pass(nontrivial, k.finish(), classes),
             Err((kind, d)) => Outcome::fail(&kind, kind.clone(), d, k.finish(), classes),
@@ -195,7 +278,7 @@ fn build(r: &R13, random_lr: Option<f64>) -> Case13 {
         .enumerate()
         .map(|(ri, m)| params.iter().enumerate().map(|(i, p)| { let k = m[i % m.len().max(1)]; if k % 4 == 0 { None } else { Some(grad_vals(ri, i, p.vals.len(), k / 4)) } }).collect())
         .collect();
-    Case13 { lr: random_lr.unwrap_or(LRS[r.lri % LRS.len()]), params, rounds }
+    Case13 { lr: random_lr.unwrap_or(LRS[r.lri % LRS.len()]), params, rounds, via_model: r.lri % 3 == 2 }
 }
 
 pub fn dispatch(kind: &str, v: &Value) -> Option<Outcome> {
